@@ -2078,4 +2078,191 @@ theorem C04_identifier_example :
              .tok "DOT" false [46], .tok "ID" false [99]] := by
   decide +kernel
 
+/-! ### lists of string literals: `'v1','v2',…,'vn'` lexes to `QUOTE_STRING (COMMA QUOTE_STRING)*` -/
+
+/-- a one-character punctuation rule (`COMMA`, `DOT`, `LPAREN`, …) and the rules in front of it -/
+def classOKsingle (c : Cfg) (name : String) (ch : Nat) : Bool :=
+  match splitAt name c.rules with
+  | none => false
+  | some (pre, dr, _) =>
+    pre.all (fun r => nonNull r.re && disjointR (first r.re) [(ch, ch)]) && !dr.ignored &&
+    (match dr.re with | .set D => D.mem ch | _ => false) && !c.ignore.mem ch
+
+theorem single_firstMatch (c : Cfg) (name : String) (ch : Nat) (hc : classOKsingle c name ch = true) (pre rest : List Nat) :
+    ∃ dr, dr.name = name ∧ dr.ignored = false ∧ c.ignore.mem ch = false ∧
+      firstMatch c.word c.rules ⟨pre, ch :: rest⟩ = some (dr, ⟨ch :: pre, rest⟩) := by
+  unfold classOKsingle at hc
+  cases hs : splitAt name c.rules with
+  | none => rw [hs] at hc; cases hc
+  | some x =>
+    obtain ⟨prer, dr, post⟩ := x
+    rw [hs] at hc
+    simp only [Bool.and_eq_true, List.all_eq_true, Bool.not_eq_true'] at hc
+    obtain ⟨⟨⟨hpre, hign⟩, hre⟩, hig⟩ := hc
+    obtain ⟨erules, ename⟩ := splitAt_spec hs
+    have hin : inSet [(ch, ch)] ch := ⟨(ch, ch), List.mem_cons_self, Nat.le_refl _, Nat.le_refl _⟩
+    have hnone : ∀ r ∈ prer, matchAt c.word r.re ⟨pre, ch :: rest⟩ = none := fun r hr =>
+      matchAt_none_of_first (hpre r hr).1 (hpre r hr).2 (p := ⟨pre, ch :: rest⟩) rfl hin
+    cases hd : dr.re with
+    | set D =>
+      rw [hd] at hre
+      simp only at hre
+      refine ⟨dr, ename, hign, hig, ?_⟩
+      rw [erules, firstMatch_skip prer _ hnone]
+      simp [firstMatch, matchAt, hd, m, hre]
+    | _ => rw [hd] at hre; simp at hre
+
+/-- the literal of the value `u0 ' u1 ' … ' uk` followed by `rest` -/
+def litTextR (u0 : List Nat) (cs : List (List Nat)) (rest : List Nat) : List Nat :=
+  39 :: (encB 92 u0 ++ 39 :: ttR 39 92 rest cs)
+
+theorem quoteSet_mem_ne {x : Nat} (h : x ≠ 39) : quoteSet.mem x = false := by
+  unfold quoteSet
+  by_cases h1 : x < 39
+  · have : Nat.blt x 39 = true := by rw [Nat.blt_eq]; exact h1
+    simp [CSet.mem, this]
+  · have a : Nat.blt x 39 = false := by
+      cases ha : Nat.blt x 39 with
+      | false => rfl
+      | true => rw [Nat.blt_eq] at ha; omega
+    have b : Nat.ble x 39 = false := by
+      cases hb : Nat.ble x 39 with
+      | false => rfl
+      | true => have := Nat.le_of_ble_eq_true hb; omega
+    simp [CSet.mem, a, b]
+
+/-- **a printed string literal inside a text is the next token**, whatever stands in front, provided what follows does not
+start with a quote: the token ends exactly in front of `rest` -/
+theorem C04_string_is_token_at (c : Cfg) (hc : classOKstr c = true) (u0 : List Nat) (cs : List (List Nat))
+    (hu0 : ChunkOK 39 u0) (hcs : ∀ u ∈ cs, ChunkOK 39 u) (pre rest : List Nat) (hrest : ∀ x t, rest = x :: t → x ≠ 39) :
+    ∃ sr e, sr.name = "QUOTE_STRING" ∧ sr.ignored = false ∧ c.ignore.mem 39 = false ∧ e.suf = rest ∧
+      (Pos.mk pre (litTextR u0 cs rest)).le e ∧
+      firstMatch c.word c.rules ⟨pre, litTextR u0 cs rest⟩ = some (sr, e) := by
+  unfold classOKstr at hc
+  cases hs : splitAt "QUOTE_STRING" c.rules with
+  | none => rw [hs] at hc; cases hc
+  | some x =>
+    obtain ⟨prer, sr, post⟩ := x
+    rw [hs] at hc
+    simp only [Bool.and_eq_true, List.all_eq_true, Bool.not_eq_true'] at hc
+    obtain ⟨⟨⟨hpre, hign⟩, hsh⟩, hig⟩ := hc
+    obtain ⟨erules, ename⟩ := splitAt_spec hs
+    have h39 : inSet quoteSet 39 := ⟨(39, 39), List.mem_cons_self, Nat.le_refl _, Nat.le_refl _⟩
+    have hnone : ∀ r ∈ prer, matchAt c.word r.re ⟨pre, litTextR u0 cs rest⟩ = none := fun r hr =>
+      matchAt_none_of_first (hpre r hr).1 (hpre r hr).2 (p := ⟨pre, litTextR u0 cs rest⟩) rfl h39
+    cases hss : strShape sr.re with
+    | none => rw [hss] at hsh; cases hsh
+    | some ANY =>
+      rw [hss] at hsh
+      have ere : sr.re = strRe quoteSet notQuoteSet bsSet ANY := by
+        unfold strShape at hss
+        split at hss
+        · split at hss
+          · rename_i hb
+            simp only [Option.some.injEq] at hss
+            subst hss
+            exact Re.beq_eq hb
+          · cases hss
+        · cases hss
+      obtain ⟨e, he, hle, hm⟩ := strRe_match_rest c.word (strOK_live hsh) (by decide) rest
+        (fun x t ex => quoteSet_mem_ne (hrest x t ex)) u0 cs hu0 hcs pre
+      refine ⟨sr, e, ename, hign, hig, he, hle, ?_⟩
+      rw [erules, firstMatch_skip prer _ hnone]
+      unfold firstMatch
+      rw [ere]
+      unfold litTextR
+      rw [hm]
+
+/-- the text of a comma-separated list of literals (each given by its chunks) -/
+def litsText : List (List Nat × List (List Nat)) → List Nat
+  | [] => []
+  | [v] => litTextR v.1 v.2 []
+  | v :: r => litTextR v.1 v.2 (44 :: litsText r)
+
+def litsSegs : List (List Nat × List (List Nat)) → List Seg
+  | [] => []
+  | [v] => [.tok "QUOTE_STRING" false (litTextR v.1 v.2 [])]
+  | v :: r => .tok "QUOTE_STRING" false (litTextR v.1 v.2 []) :: .tok "COMMA" false [44] :: litsSegs r
+
+theorem litTextR_append (u0 : List Nat) (cs : List (List Nat)) (rest : List Nat) :
+    litTextR u0 cs rest = litTextR u0 cs [] ++ rest := by
+  unfold litTextR
+  have : ∀ cs : List (List Nat), ttR 39 92 rest cs = ttR 39 92 [] cs ++ rest := by
+    intro cs
+    induction cs with
+    | nil => simp [ttR]
+    | cons u cs ih => simp [ttR, ih]
+  rw [this]
+  simp
+
+open MindsVerif.Props.C02Lex in
+theorem lits_steps (c : Cfg) (hc : classOKstr c = true) (hcomma : classOKsingle c "COMMA" 44 = true) :
+    ∀ (vs : List (List Nat × List (List Nat))), vs ≠ [] → (∀ v ∈ vs, ChunkOK 39 v.1 ∧ ∀ u ∈ v.2, ChunkOK 39 u) →
+    ∀ (pre : List Nat), ∃ e, e.suf = [] ∧ Steps c ⟨pre, litsText vs⟩ (litsSegs vs) e := by
+  intro vs
+  induction vs with
+  | nil => intro h; exact absurd rfl h
+  | cons v r ih =>
+    intro _ hall pre
+    obtain ⟨hv1, hv2⟩ := hall v List.mem_cons_self
+    cases r with
+    | nil =>
+      obtain ⟨sr, e, hn, hi, hig, he, hle, hfm⟩ := C04_string_is_token_at c hc v.1 v.2 hv1 hv2 pre [] (fun x t h => by cases h)
+      refine ⟨e, he, ?_⟩
+      obtain ⟨l, hl1, hl2⟩ := hle
+      simp only at hl2
+      rw [he, List.append_nil] at hl2
+      have hs : Step c ⟨pre, litTextR v.1 v.2 []⟩ (.tok sr.name sr.ignored (between ⟨pre, litTextR v.1 v.2 []⟩ e)) e :=
+        Step.tok ⟨pre, litTextR v.1 v.2 []⟩ 39 _ sr e rfl hig hfm (by rw [he]; simp [litTextR])
+      have hb : between ⟨pre, litTextR v.1 v.2 []⟩ e = litTextR v.1 v.2 [] := by
+        simp [between, he]
+      rw [hn, hi, hb] at hs
+      exact Steps.cons hs (Steps.nil _)
+    | cons v2 r2 =>
+      have hrest : ∀ x t, (44 :: litsText (v2 :: r2)) = x :: t → x ≠ 39 := by
+        intro x t h; cases h; decide
+      obtain ⟨sr, e, hn, hi, hig, he, hle, hfm⟩ :=
+        C04_string_is_token_at c hc v.1 v.2 hv1 hv2 pre (44 :: litsText (v2 :: r2)) hrest
+      obtain ⟨dr, hdn, hdi, hdig, hdfm⟩ := single_firstMatch c "COMMA" 44 hcomma e.pre (litsText (v2 :: r2))
+      obtain ⟨e2, he2, hrestSteps⟩ := ih (by simp) (fun x hx => hall x (List.mem_cons_of_mem _ hx)) (44 :: e.pre)
+      refine ⟨e2, he2, ?_⟩
+      have heq : e = ⟨e.pre, 44 :: litsText (v2 :: r2)⟩ := by
+        obtain ⟨ep, es⟩ := e; simp only at he; subst he; rfl
+      have hs1 : Step c ⟨pre, litTextR v.1 v.2 (44 :: litsText (v2 :: r2))⟩
+          (.tok sr.name sr.ignored (between ⟨pre, litTextR v.1 v.2 (44 :: litsText (v2 :: r2))⟩ e)) e :=
+        Step.tok _ 39 _ sr e rfl hig hfm (by
+          rw [he, litTextR_append]
+          have : 0 < (litTextR v.1 v.2 []).length := by simp [litTextR]
+          simp only [List.length_append]
+          omega)
+      have hb : between ⟨pre, litTextR v.1 v.2 (44 :: litsText (v2 :: r2))⟩ e = litTextR v.1 v.2 [] := by
+        rw [litTextR_append]
+        simp [between, he]
+      rw [hn, hi, hb] at hs1
+      have hs2 : Step c ⟨e.pre, 44 :: litsText (v2 :: r2)⟩
+          (.tok dr.name dr.ignored (between ⟨e.pre, 44 :: litsText (v2 :: r2)⟩ ⟨44 :: e.pre, litsText (v2 :: r2)⟩))
+          ⟨44 :: e.pre, litsText (v2 :: r2)⟩ :=
+        Step.tok _ 44 (litsText (v2 :: r2)) dr _ rfl hdig hdfm (by simp)
+      have hb2 : between ⟨e.pre, 44 :: litsText (v2 :: r2)⟩ ⟨44 :: e.pre, litsText (v2 :: r2)⟩ = [44] := by
+        have := between_adv e.pre [44] (litsText (v2 :: r2)); simpa using this
+      rw [hdn, hdi, hb2] at hs2
+      rw [heq] at hs1
+      exact Steps.cons hs1 (Steps.cons hs2 hrestSteps)
+
+/-- **every comma-separated list of printed string literals lexes to `QUOTE_STRING (COMMA QUOTE_STRING)*`** — any number of
+values, any values -/
+theorem C04_string_list_lexes (c : Cfg) (hc : classOKstr c = true) (hcomma : classOKsingle c "COMMA" 44 = true)
+    (vs : List (List Nat × List (List Nat))) (hne : vs ≠ []) (hall : ∀ v ∈ vs, ChunkOK 39 v.1 ∧ ∀ u ∈ v.2, ChunkOK 39 u) :
+    lex c (litsText vs) = .ok (litsSegs vs) := by
+  obtain ⟨e, he, hs⟩ := lits_steps c hc hcomma vs hne hall []
+  exact steps_lex c _ _ e hs he
+
+theorem classOKcomma_live : classOKsingle LexRe_sqlite.cfg "COMMA" 44 = true ∧ classOKsingle LexRe_mysql.cfg "COMMA" 44 = true ∧
+    classOKsingle LexRe_mindsdb.cfg "COMMA" 44 = true := by decide +kernel
+
+theorem C04_string_list_lexes_mindsdb (vs : List (List Nat × List (List Nat))) (hne : vs ≠ [])
+    (hall : ∀ v ∈ vs, ChunkOK 39 v.1 ∧ ∀ u ∈ v.2, ChunkOK 39 u) :
+    lex LexRe_mindsdb.cfg (litsText vs) = .ok (litsSegs vs) :=
+  C04_string_list_lexes _ classOKstr_live.2.2 classOKcomma_live.2.2 vs hne hall
+
 end MindsVerif.Props.C04Lex
